@@ -8,7 +8,7 @@ def run(chk):
                 'trashes holding the same base name in different directories and volumes, in home and volume trash '
                 'directories, with infos without payload; the concrete pattern is a glob-escaped literal / glob and '
                 'the names come from a pool with glob metacharacters, case variants and prefix siblings; '
-                'non-trivial = something was removed; all generated cases are executed. Pattern stage: random patterns (literals, *, ?, [set], [!set], ranges, unclosed [, leading /) against name sets with case variants, metacharacters in names, multi-byte characters, equal base names in different directories and volumes; the set removed by the real trash-rm is judged by TLC evaluating Match (Glob.tla) on the same code points')
+                'non-trivial = something was removed; all generated cases are executed. Pattern stage: random patterns (literals, *, ?, [set], [!set], ranges, unclosed [, leading /) against name sets with case variants, metacharacters in names, multi-byte characters, equal base names in different directories and volumes; the set removed by the real trash-rm is judged by TLC evaluating Match (Glob.tla) on the same code points. Stage rm-faults: an errno instead of each unlink / rmdir of a payload by trash-rm (a payload that cannot be removed): TLC (PurgeTrace) evaluates InfoLast on the state left (payload and info go together: an entry is never torn apart)')
     chk.assumptions += common.ASSUME
     common.mc(chk, properties=['PurgeFrame'])
     common.gen_tt(chk, 'rm', 'Init_Many', 'Next_Rm', 6, None, thorough_seeds=6)
@@ -21,9 +21,43 @@ def run(chk):
               if g['lab']['cmd'] == 'rm']
     stages.transition_tests(chk, 'rm-among-malformed', groups, sample=None, seeds_per_group=2 if chk.tier == 'quick' else 8,
                             opts_fn=lambda g, seed: {'shim': {'permute': True}})
+    rm_faults(chk)
     common.fun_laws(chk)
     common.fun_stage(chk, 'patterns', 'rm', 150 if chk.tier == 'quick' else 4000)
     chk.exhaustive = True
+
+
+def rm_faults(chk):
+    """payload and .trashinfo go TOGETHER also when the file system refuses an operation of trash-rm: errno e instead of the
+    k-th operation, for every k; TLC (PurgeTrace) evaluates InfoLast (a payload that is still there - whole or partly removed -
+    still has its info) and the frame on the state the run leaves"""
+    from harness import opdrivers, opspec, tt
+    errnos = ['EACCES', 'EPERM', 'EBUSY'] if chk.tier == 'quick' else ['EACCES', 'EPERM', 'EBUSY', 'EIO', 'EROFS']
+    jobs = []
+    for scen in ('rm-all', 'rm-one', 'rm-all@dirlink'):
+        n, ops, ex, fin = opdrivers.purge_baseline(scen)
+        # only "this part of the payload cannot be removed" (an immutable file, a read-only sub-directory ...): errors on the
+        # probing operations are outside what C12 speaks about
+        jobs += [(scen, k, e) for k in range(1, n + 1) for e in errnos
+                 if ops[k - 1][0] in ('unlink', 'rmdir') and any(r and '/files/' in r for r in ops[k - 1][1])]
+    out = tt.pmap(opdrivers.run_purge_fault, jobs)
+    res, v = opspec.judge_purge([o['state'] for o in out])
+    chk.add_tlc('PurgeTrace:rm-faults', res, constants='observed states=%d' % len(out))
+    for i, o in enumerate(out):
+        chk.traces += 1
+        chk.count('rm-faults', 1, key='%s|%s|%s' % (o['scen'], o['k'], o['errno']), nontrivial=bool(o['injected']))
+        if not o['outside_intact']:
+            chk.violation('rm-faults:%s:outside-touched' % o['scen'], 'something outside files/ and info/ was modified (scenario %s, %s at operation %s)' % (
+                o['scen'], o['errno'], o['k']), {'kind': 'purge', 'item': o})
+        x = v.get(i + 1) if res.ok else None
+        if x is not None:
+            bad = [k for k in ('InfoLast', 'FrameOK') if k in x and not x[k]]
+            if bad:
+                op = (o['injected'] or [['?', []]])[0]
+                chk.violation('rm-faults:%s:%s:%s' % (o['scen'], op[0], '+'.join(bad)),
+                              '%s false after trash-rm met %s at operation %s %s: %s | exit %s %s' % (
+                                  ', '.join(bad), o['errno'], o['k'], op, o['state'], o['exit'], o['stderr'][-200:]),
+                              {'kind': 'purge', 'item': o})
 
 
 def replay(path):
